@@ -379,7 +379,23 @@ func (s *Sem) TrueFacts(k Conj, v ssa.Value) (Conj, bool) {
 				}
 			}
 			if next == nil {
-				return k.With(Fact{X: v, Pol: true}), true
+				// x && y: every operand but one is the constant false, so the merged value is true only if that
+				// one operand is
+				var nonFalse []ssa.Value
+				for _, e := range phi.Edges {
+					if c, isC := e.(*ssa.Const); isC && c.Value != nil && c.Value.Kind() == constant.Bool && !constant.BoolVal(c.Value) {
+						continue
+					}
+					nonFalse = append(nonFalse, e)
+				}
+				k = k.With(Fact{X: v, Pol: true})
+				if len(nonFalse) == 1 {
+					if _, isC := nonFalse[0].(*ssa.Const); !isC {
+						v = Unwrap(nonFalse[0])
+						continue
+					}
+				}
+				return k, true
 			}
 			v = Unwrap(next)
 			continue
